@@ -128,3 +128,8 @@ def evaluate_one(case):
 
 from ._rt import with_variants                     # noqa: E402
 evaluate = with_variants(evaluate_one)
+
+
+def sweeps(tier):
+    # deterministic part: flat schedulers of 9 .. 1025 members (just above powers of two)
+    return [S.ladder_sweep(['timeout'])]
